@@ -302,9 +302,11 @@ package deps
 //@   modifies alloc
 //@ trusted func (t store.QueryTransformer) TransformEvents(events []store.ResultEvent) (out []store.ResultEvent, err error)
 //@   modifies alloc
+//@ # tqdur: the duration a timer queue was created with (it cannot be changed afterwards)
+//@ ghostvar tqdur arr
 //@ trusted func timerqueue.New(cb func(v interface{}), d time.Duration) (q *timerqueue.Queue)
-//@   modifies alloc
-//@   ensures q != nil
+//@   modifies alloc, ghost.tqdur
+//@   ensures q != nil && tqdur == store(old(tqdur), ref(q), d)
 //@ # a channel that is local to one function and never sent on (serve's workCh): closing it cannot disturb a sender
 //@ trusted func builtin.closeLocal(c chan *res.work)
 //@   modifies ghost.chclosed
